@@ -330,4 +330,459 @@ theorem scanMant_sound (radix : Nat) (marker : UInt8) (t : List UInt8) (sig nf :
       · cases dot <;> simp [Mant.bytes, ExpPart.optBytes] <;> omega
 
 
+/-! ### inf / nan -/
+
+theorem stripCI_sound : ∀ (pat s r : List UInt8), stripCI pat s = some r →
+    ∃ txt, s = txt ++ r ∧ txt.map lower = pat := by
+  intro pat
+  induction pat with
+  | nil => intro s r h; simp [stripCI] at h; exact ⟨[], by simp [h], rfl⟩
+  | cons p ps ih =>
+    intro s r h
+    cases s with
+    | nil => simp [stripCI] at h
+    | cons c cs =>
+      simp only [stripCI] at h
+      split at h
+      · rename_i hc
+        obtain ⟨txt, h1, h2⟩ := ih cs r h
+        exact ⟨c :: txt, by simp [h1], by simp [hc, h2]⟩
+      · cases h
+
+theorem stripCI_of : ∀ (pat txt r : List UInt8), txt.map lower = pat → stripCI pat (txt ++ r) = some r := by
+  intro pat
+  induction pat with
+  | nil => intro txt r h; simp at h; subst h; simp [stripCI]
+  | cons p ps ih =>
+    intro txt r h
+    cases txt with
+    | nil => simp at h
+    | cons c cs =>
+      simp only [List.map_cons, List.cons.injEq] at h
+      simp only [List.cons_append, stripCI, h.1, if_true]
+      exact ih cs r h.2
+
+theorem stripCI_head_ne {p : UInt8} {ps : List UInt8} {c : UInt8} {cs : List UInt8} (h : lower c ≠ p) :
+    stripCI (p :: ps) (c :: cs) = none := by
+  simp [stripCI, h]
+
+theorem close_not_nchar : isNChar 0x29 = false := by decide
+
+theorem nanParen_of (cs rest : List UInt8) (hcs : ∀ c ∈ cs, isNChar c = true) :
+    nanParen (0x28 :: (cs ++ 0x29 :: rest)) = cs.length + 2 := by
+  obtain ⟨h1, h2⟩ := takeWhile_append_stop cs 0x29 rest hcs close_not_nchar
+  simp [nanParen, h1, h2]
+
+theorem nanParen_sound (r : List UInt8) :
+    nanParen r = 0 ∨ ∃ cs rest, r = 0x28 :: (cs ++ 0x29 :: rest) ∧ (∀ c ∈ cs, isNChar c = true) ∧ nanParen r = cs.length + 2 := by
+  unfold nanParen
+  split
+  · rename_i t
+    split
+    · rename_i rest heq
+      right
+      refine ⟨t.takeWhile isNChar, rest, ?_, takeWhile_all t, rfl⟩
+      rw [← heq, List.takeWhile_append_dropWhile]
+    · left; rfl
+  · left; rfl
+
+
+/-! ### soundness of the four scans -/
+
+theorem map_lower_length {txt pat : List UInt8} (h : txt.map lower = pat) : txt.length = pat.length := by
+  rw [← h]; simp
+
+theorem scanInf_sound (s : List UInt8) (sub : Subject) (n : Nat) (h : scanInf s = some (sub, n)) :
+    ∃ (b : Body) (rest : List UInt8), s = b.bytes ++ rest ∧ b.Denotes sub ∧ n = b.bytes.length := by
+  unfold scanInf at h
+  split at h
+  · rename_i r hr
+    obtain ⟨txt, hs, ht⟩ := stripCI_sound _ _ _ hr
+    split at h
+    · rename_i r2 hr2
+      obtain ⟨txt2, hs2, ht2⟩ := stripCI_sound _ _ _ hr2
+      injection h with h; injection h with h1 h2; subst h1 h2
+      refine ⟨.inf (txt ++ txt2), r2, by simp [Body.bytes, hs, hs2], ⟨Or.inr (by simp [ht, ht2]), rfl⟩, ?_⟩
+      simp [Body.bytes, map_lower_length ht, map_lower_length ht2]
+    · injection h with h; injection h with h1 h2; subst h1 h2
+      exact ⟨.inf txt, r, by simp [Body.bytes, hs], ⟨Or.inl ht, rfl⟩, by simp [Body.bytes, map_lower_length ht]⟩
+  · cases h
+
+theorem scanNan_sound (s : List UInt8) (sub : Subject) (n : Nat) (h : scanNan s = some (sub, n)) :
+    ∃ (b : Body) (rest : List UInt8), s = b.bytes ++ rest ∧ b.Denotes sub ∧ n = b.bytes.length := by
+  unfold scanNan at h
+  split at h
+  · rename_i r hr
+    obtain ⟨txt, hs, ht⟩ := stripCI_sound _ _ _ hr
+    injection h with h; injection h with h1 h2; subst h1 h2
+    rcases nanParen_sound r with h0 | ⟨cs, rest, hr2, hcs, hk⟩
+    · refine ⟨.nan txt none, r, by simp [Body.bytes, hs], ⟨ht, (fun _ h => by cases h), rfl⟩, ?_⟩
+      simp [Body.bytes, map_lower_length ht, h0]
+    · refine ⟨.nan txt (some cs), rest, by simp [Body.bytes, hs, hr2], ⟨ht, (fun cs' h => by injection h with h; subst h; exact hcs), rfl⟩, ?_⟩
+      simp [Body.bytes, map_lower_length ht, hk]
+  · cases h
+
+theorem scanHex_sound (s : List UInt8) (sub : Subject) (n : Nat) (h : scanHex s = some (sub, n)) :
+    ∃ (b : Body) (rest : List UInt8), s = b.bytes ++ rest ∧ b.Denotes sub ∧ n = b.bytes.length := by
+  unfold scanHex at h
+  split at h
+  · rename_i x t
+    split at h
+    · rename_i hx
+      split at h
+      · rename_i sig nf ex k hm
+        obtain ⟨m, rest, ht, hden, hk⟩ := scanMant_sound 16 0x70 t sig nf ex k hm
+        injection h with h; injection h with h1 h2; subst h1 h2
+        have hx' : x = 0x78 ∨ x = 0x58 := by simpa [isX] using hx
+        exact ⟨.hex x m, rest, by simp [Body.bytes, ht], ⟨hx', sig, nf, ex, hden, rfl⟩, by simp [Body.bytes, hk]; omega⟩
+      · cases h
+    · cases h
+  · cases h
+
+theorem scanDec_sound (s : List UInt8) (sub : Subject) (n : Nat) (h : scanDec s = some (sub, n)) :
+    ∃ (b : Body) (rest : List UInt8), s = b.bytes ++ rest ∧ b.Denotes sub ∧ n = b.bytes.length := by
+  unfold scanDec at h
+  split at h
+  · rename_i sig nf ex k hm
+    obtain ⟨m, rest, ht, hden, hk⟩ := scanMant_sound 10 0x65 s sig nf ex k hm
+    injection h with h; injection h with h1 h2; subst h1 h2
+    exact ⟨.dec m, rest, by simp [Body.bytes, ht], ⟨sig, nf, ex, hden, rfl⟩, by simp [Body.bytes, hk]⟩
+  · cases h
+
+theorem scanBody_sound (s : List UInt8) (sub : Subject) (n : Nat) (h : scanBody s = some (sub, n)) :
+    ∃ (b : Body) (rest : List UInt8), s = b.bytes ++ rest ∧ b.Denotes sub ∧ n = b.bytes.length := by
+  unfold scanBody at h
+  split at h
+  · rename_i r hr; injection h with h; subst h; exact scanInf_sound s sub n hr
+  · split at h
+    · rename_i r hr; injection h with h; subst h; exact scanNan_sound s sub n hr
+    · split at h
+      · rename_i r hr; injection h with h; subst h; exact scanHex_sound s sub n hr
+      · exact scanDec_sound s sub n h
+
+
+/-! ### maximality of the four scans -/
+
+/-- a byte that can start a decimal significand cannot start `inf` or `nan` -/
+theorem dec_head_not_in : ∀ c : UInt8, ((digitOf 10 c).isSome = true ∨ c = 0x2e) → lower c ≠ 0x69 ∧ lower c ≠ 0x6e :=
+  u8_forall (by decide +kernel)
+
+theorem n_not_i : ∀ c : UInt8, lower c = 0x6e → lower c ≠ 0x69 := u8_forall (by decide +kernel)
+
+theorem isX_facts : ∀ x : UInt8, isX x = true → digitOf 10 x = none ∧ x ≠ 0x2e ∧ lower x ≠ 0x65 :=
+  u8_forall (by decide +kernel)
+
+theorem scanInf_none_of_head {c : UInt8} (t : List UInt8) (h : lower c ≠ 0x69) : scanInf (c :: t) = none := by
+  simp [scanInf, stripCI_head_ne h]
+
+theorem scanNan_none_of_head {c : UInt8} (t : List UInt8) (h : lower c ≠ 0x6e) : scanNan (c :: t) = none := by
+  simp [scanNan, stripCI_head_ne h]
+
+theorem scanInf_of (txt rest : List UInt8)
+    (h : txt.map lower = [0x69, 0x6e, 0x66] ∨ txt.map lower = [0x69, 0x6e, 0x66, 0x69, 0x6e, 0x69, 0x74, 0x79]) :
+    ∃ n, scanInf (txt ++ rest) = some (.inf, n) ∧ txt.length ≤ n := by
+  rcases h with h | h
+  · have hl := map_lower_length h
+    simp only [scanInf, stripCI_of _ txt rest h]
+    split
+    · exact ⟨8, rfl, by simp at hl; omega⟩
+    · exact ⟨3, rfl, by simp at hl; omega⟩
+  · have hl := map_lower_length h
+    have h1 : (txt.take 3).map lower = [0x69, 0x6e, 0x66] := by
+      rw [List.map_take, h]; rfl
+    have h2 : (txt.drop 3).map lower = [0x69, 0x6e, 0x69, 0x74, 0x79] := by
+      rw [List.map_drop, h]; rfl
+    have hs : txt ++ rest = txt.take 3 ++ (txt.drop 3 ++ rest) := by
+      rw [← List.append_assoc, List.take_append_drop]
+    rw [hs]
+    simp only [scanInf, stripCI_of _ _ _ h1, stripCI_of _ _ _ h2]
+    exact ⟨8, rfl, by simp at hl; omega⟩
+
+theorem scanNan_of (txt : List UInt8) (paren : Option (List UInt8)) (rest : List UInt8)
+    (ht : txt.map lower = [0x6e, 0x61, 0x6e]) (hp : ∀ cs, paren = some cs → ∀ c ∈ cs, isNChar c = true) :
+    ∃ n, scanNan ((Body.nan txt paren).bytes ++ rest) = some (.nan, n) ∧ (Body.nan txt paren).bytes.length ≤ n := by
+  have hl := map_lower_length ht
+  cases paren with
+  | none =>
+    simp only [Body.bytes, scanNan, stripCI_of _ txt rest ht]
+    exact ⟨_, rfl, by simp at hl; omega⟩
+  | some cs =>
+    have hs : (Body.nan txt (some cs)).bytes ++ rest = txt ++ (0x28 :: (cs ++ 0x29 :: rest)) := by
+      simp [Body.bytes, List.append_assoc]
+    rw [hs]
+    simp only [scanNan, stripCI_of _ txt _ ht, nanParen_of cs rest (hp cs rfl)]
+    exact ⟨_, rfl, by simp [Body.bytes] at hl ⊢; omega⟩
+
+/-- first byte of a decimal significand -/
+theorem dec_head {m : Mant} {sig nf : Nat} {e : Int} (h : m.Denotes 10 0x65 sig nf e) :
+    ∃ c t, m.bytes = c :: t ∧ ((digitOf 10 c).isSome = true ∨ c = 0x2e) := by
+  obtain ⟨ip, dot, fp, exp⟩ := m
+  obtain ⟨hdf, hne, hsig, _, _⟩ := h
+  simp only at hdf hne hsig
+  cases ip with
+  | nil =>
+    cases dot with
+    | true => exact ⟨0x2e, fp ++ ExpPart.optBytes exp, by simp [Mant.bytes], Or.inr rfl⟩
+    | false => simp [hdf rfl] at hne
+  | cons c ip' =>
+    refine ⟨c, ip' ++ ((if dot = true then [0x2e] else []) ++ (fp ++ ExpPart.optBytes exp)), by simp [Mant.bytes], Or.inl ?_⟩
+    simp only [List.cons_append, digitsVal] at hsig
+    cases hd : digitOf 10 c with
+    | none => simp [hd] at hsig
+    | some d => rfl
+
+/-- a decimal numeral that is followed by `x` is just `0` -/
+theorem dec_zero_x {m : Mant} {sig nf : Nat} {e : Int} (h : m.Denotes 10 0x65 sig nf e)
+    {rest t : List UInt8} {x : UInt8} (heq : m.bytes ++ rest = 0x30 :: x :: t) (hx : isX x = true) :
+    m.bytes.length = 1 := by
+  obtain ⟨hx1, hx2, hx3⟩ := isX_facts x hx
+  obtain ⟨ip, dot, fp, exp⟩ := m
+  obtain ⟨hdf, hne, hsig, _, hexp⟩ := h
+  simp only at hdf hne hsig hexp
+  cases ip with
+  | nil =>
+    cases dot with
+    | true => simp [Mant.bytes] at heq
+    | false => simp [hdf rfl] at hne
+  | cons c ip' =>
+    cases ip' with
+    | cons c2 ip'' =>
+      simp only [Mant.bytes, List.cons_append, List.cons.injEq] at heq
+      obtain ⟨_, rfl, _⟩ := heq
+      simp only [List.cons_append, digitsVal] at hsig
+      cases hd : digitOf 10 c with
+      | none => simp [hd] at hsig
+      | some d => simp [hd, hx1] at hsig
+    | nil =>
+      cases dot with
+      | true =>
+        simp only [Mant.bytes, if_true, List.cons_append, List.nil_append, List.cons.injEq] at heq
+        exact absurd heq.2.1.symm hx2
+      | false =>
+        have hfp : fp = [] := hdf rfl
+        subst hfp
+        cases exp with
+        | none => simp [Mant.bytes, ExpPart.optBytes]
+        | some xp =>
+          simp only [Mant.bytes, ExpPart.optBytes, ExpPart.bytes, Bool.false_eq_true, if_false, List.append_nil,
+            List.cons_append, List.nil_append, List.cons.injEq] at heq
+          obtain ⟨_, hm, _⟩ := heq
+          simp only at hexp
+          rw [hm] at hexp
+          exact absurd hexp.1 hx3
+
+theorem scanHex_shape {s : List UInt8} {r : Subject × Nat} (h : scanHex s = some r) :
+    ∃ x t, s = 0x30 :: x :: t ∧ isX x = true ∧ 2 ≤ r.2 := by
+  unfold scanHex at h
+  split at h
+  · rename_i x t
+    split at h
+    · rename_i hx
+      split at h
+      · injection h with h; subst h; exact ⟨x, t, rfl, hx, by simp⟩
+      · cases h
+    · cases h
+  · cases h
+
+/-- completeness / maximality of `scanBody` -/
+theorem scanBody_of_body (b : Body) (sub : Subject) (rest : List UInt8) (h : b.Denotes sub) :
+    ∃ sub2 n, scanBody (b.bytes ++ rest) = some (sub2, n) ∧ b.bytes.length ≤ n ∧
+      (b.bytes.length = n → sub2 = sub) := by
+  cases b with
+  | inf txt =>
+    obtain ⟨ht, rfl⟩ := h
+    obtain ⟨n, hs, hle⟩ := scanInf_of txt rest ht
+    exact ⟨.inf, n, by simp [scanBody, Body.bytes, hs], hle, fun _ => rfl⟩
+  | nan txt paren =>
+    obtain ⟨ht, hp, rfl⟩ := h
+    obtain ⟨n, hs, hle⟩ := scanNan_of txt paren rest ht hp
+    have hl := map_lower_length ht
+    obtain ⟨c, t, hct⟩ : ∃ c t, txt = c :: t := by
+      cases txt with
+      | nil => simp at hl
+      | cons c t => exact ⟨c, t, rfl⟩
+    have hc : lower c = 0x6e := by rw [hct] at ht; simp at ht; exact ht.1
+    have hinf : scanInf ((Body.nan txt paren).bytes ++ rest) = none := by
+      have : ∃ t', (Body.nan txt paren).bytes ++ rest = c :: t' := by
+        cases paren <;> simp [Body.bytes, hct]
+      obtain ⟨t', ht'⟩ := this
+      rw [ht']; exact scanInf_none_of_head t' (n_not_i c hc)
+    exact ⟨.nan, n, by simp [scanBody, hinf, hs], hle, fun _ => rfl⟩
+  | hex x m =>
+    obtain ⟨hx, sig, nf, e, hden, rfl⟩ := h
+    have hxx : isX x = true := by rcases hx with rfl | rfl <;> decide
+    obtain ⟨sig2, nf2, ex2, n, hs, hle, heq⟩ := scanMant_of_mant 16 0x70 m rest sig nf e marker_p dot_not_digit.2 hden
+    have h0i : lower 0x30 ≠ 0x69 := by decide
+    have h0n : lower 0x30 ≠ 0x6e := by decide
+    refine ⟨.num ((sig2 : Rat) * ratPow 2 (ex2 - 4 * (nf2 : Int))), 2 + n, ?_, by simp [Body.bytes]; omega, ?_⟩
+    · simp only [Body.bytes, List.cons_append, scanBody, scanInf_none_of_head _ h0i, scanNan_none_of_head _ h0n,
+        scanHex, hxx, if_true, hs]
+    · simp only [Body.bytes, List.length_cons]
+      intro hl
+      obtain ⟨rfl, rfl, rfl⟩ := heq (by omega)
+      rfl
+  | dec m =>
+    obtain ⟨sig, nf, e, hden, rfl⟩ := h
+    obtain ⟨c, t, hct, hc⟩ := dec_head hden
+    obtain ⟨hci, hcn⟩ := dec_head_not_in c hc
+    have hb : (Body.dec m).bytes ++ rest = c :: (t ++ rest) := by simp [Body.bytes, hct]
+    cases hhex : scanHex ((Body.dec m).bytes ++ rest) with
+    | some r =>
+      obtain ⟨x, t', hshape, hx, h2⟩ := scanHex_shape hhex
+      have h1 : m.bytes.length = 1 := dec_zero_x hden (by simpa [Body.bytes] using hshape) hx
+      refine ⟨r.1, r.2, ?_, by simp [Body.bytes]; omega, fun hl => by simp [Body.bytes] at hl; omega⟩
+      have hinf : scanInf ((Body.dec m).bytes ++ rest) = none := by rw [hb]; exact scanInf_none_of_head _ hci
+      have hnan : scanNan ((Body.dec m).bytes ++ rest) = none := by rw [hb]; exact scanNan_none_of_head _ hcn
+      simp only [scanBody, hinf, hnan, hhex]
+    | none =>
+      obtain ⟨sig2, nf2, ex2, n, hs, hle, heq⟩ := scanMant_of_mant 10 0x65 m rest sig nf e marker_e dot_not_digit.1 hden
+      have hinf : scanInf ((Body.dec m).bytes ++ rest) = none := by rw [hb]; exact scanInf_none_of_head _ hci
+      have hnan : scanNan ((Body.dec m).bytes ++ rest) = none := by rw [hb]; exact scanNan_none_of_head _ hcn
+      refine ⟨.num ((sig2 : Rat) * ratPow 10 (ex2 - (nf2 : Int))), n, ?_, by simpa [Body.bytes] using hle, ?_⟩
+      · simp only [scanBody, hinf, hnan, hhex, scanDec]
+        simp only [Body.bytes, hs]
+      · simp only [Body.bytes]
+        intro hl
+        obtain ⟨rfl, rfl, rfl⟩ := heq hl
+        rfl
+
+
+/-! ### the whole subject sequence -/
+
+theorem body_start_facts : ∀ c : UInt8,
+    (lower c = 0x69 ∨ lower c = 0x6e ∨ (digitOf 10 c).isSome = true ∨ c = 0x2e) →
+    c ≠ 0x2d ∧ c ≠ 0x2b ∧ isSpace c = false :=
+  u8_forall (by decide +kernel)
+
+theorem body_head {b : Body} {sub : Subject} (h : b.Denotes sub) :
+    ∃ c t, b.bytes = c :: t ∧ c ≠ 0x2d ∧ c ≠ 0x2b ∧ isSpace c = false := by
+  cases b with
+  | inf txt =>
+    obtain ⟨ht, _⟩ := h
+    cases txt with
+    | nil => rcases ht with ht | ht <;> simp at ht
+    | cons c t =>
+      refine ⟨c, t, rfl, body_start_facts c (Or.inl ?_)⟩
+      rcases ht with ht | ht <;> (simp at ht; exact ht.1)
+  | nan txt paren =>
+    obtain ⟨ht, _, _⟩ := h
+    cases txt with
+    | nil => simp at ht
+    | cons c t =>
+      have hc : lower c = 0x6e := by simp at ht; exact ht.1
+      cases paren with
+      | none => exact ⟨c, t, rfl, body_start_facts c (Or.inr (Or.inl hc))⟩
+      | some cs => exact ⟨c, t ++ [0x28] ++ cs ++ [0x29], by simp [Body.bytes], body_start_facts c (Or.inr (Or.inl hc))⟩
+  | dec m =>
+    obtain ⟨sig, nf, e, hden, _⟩ := h
+    obtain ⟨c, t, hct, hc⟩ := dec_head hden
+    exact ⟨c, t, by simp [Body.bytes, hct], body_start_facts c (Or.inr (Or.inr hc))⟩
+  | hex x m =>
+    exact ⟨0x30, x :: m.bytes, rfl, by decide, by decide, by decide⟩
+
+theorem sign_step (sg : Sign) (c0 : UInt8) (t : List UInt8) (h1 : c0 ≠ 0x2d) (h2 : c0 ≠ 0x2b)
+    (h3 : isSpace c0 = false) :
+    scanSign (sg.bytes ++ c0 :: t) = (decide (sg = .minus), sg.bytes.length, c0 :: t) ∧
+    ∃ x b, sg.bytes ++ c0 :: t = x :: b ∧ isSpace x = false := by
+  cases sg with
+  | none => exact ⟨by simp [Sign.bytes, scanSign_other h1 h2], c0, t, by simp [Sign.bytes], h3⟩
+  | plus => exact ⟨by simp [Sign.bytes, scanSign], 0x2b, c0 :: t, by simp [Sign.bytes], by decide⟩
+  | minus => exact ⟨by simp [Sign.bytes, scanSign], 0x2d, c0 :: t, by simp [Sign.bytes], by decide⟩
+
+theorem scanF_of_numeral (n : FNumeral) (neg : Bool) (sub : Subject) (rest : List UInt8) (h : n.Denotes neg sub) :
+    ∃ neg2 sub2 e, scanF (n.bytes ++ rest) = some (neg2, sub2, e) ∧ n.bytes.length ≤ e ∧
+      (n.bytes.length = e → neg2 = neg ∧ sub2 = sub) := by
+  obtain ⟨ws, sg, b⟩ := n
+  obtain ⟨hws, hneg, hb⟩ := h
+  simp only at hws hneg hb
+  obtain ⟨c, t, hct, h1, h2, h3⟩ := body_head hb
+  obtain ⟨sub2, k, hs, hle, heq⟩ := scanBody_of_body b sub rest hb
+  obtain ⟨hsign, x, bb, hxb, hx⟩ := sign_step sg c (t ++ rest) h1 h2 h3
+  have hbr : b.bytes ++ rest = c :: (t ++ rest) := by rw [hct]; rfl
+  have hsplit : FNumeral.bytes ⟨ws, sg, b⟩ ++ rest = ws ++ x :: bb := by
+    simp only [FNumeral.bytes, List.append_assoc, hbr, hxb]
+  obtain ⟨htw, hdw⟩ := takeWhile_append_stop ws x bb hws hx
+  refine ⟨decide (sg = .minus), sub2, ws.length + sg.bytes.length + k, ?_, ?_, ?_⟩
+  · have e1 : List.dropWhile isSpace (FNumeral.bytes ⟨ws, sg, b⟩ ++ rest) = sg.bytes ++ c :: (t ++ rest) := by
+      rw [hsplit, hdw, hxb]
+    have e2 : List.takeWhile isSpace (FNumeral.bytes ⟨ws, sg, b⟩ ++ rest) = ws := by
+      rw [hsplit, htw]
+    simp only [scanF, e1, e2, hsign]
+    rw [← hbr, hs]
+  · simp only [FNumeral.bytes, List.length_append]; omega
+  · simp only [FNumeral.bytes, List.length_append]
+    intro hl
+    exact ⟨hneg.symm, heq (by omega)⟩
+
+theorem scanF_sound (s : List UInt8) (neg : Bool) (sub : Subject) (e : Nat) (h : scanF s = some (neg, sub, e)) :
+    ∃ (n : FNumeral) (rest : List UInt8), s = n.bytes ++ rest ∧ n.Denotes neg sub ∧ e = n.bytes.length := by
+  obtain ⟨sg, hsign, hs1⟩ := scanSign_spec (s.dropWhile isSpace)
+  simp only [scanF, hsign] at h
+  split at h
+  · cases h
+  · rename_i sub' k hb
+    injection h with h
+    simp only [Prod.mk.injEq] at h
+    obtain ⟨rfl, rfl, rfl⟩ := h
+    obtain ⟨b, rest, hbs, hbd, hk⟩ := scanBody_sound _ _ _ hb
+    refine ⟨⟨s.takeWhile isSpace, sg, b⟩, rest, ?_, ⟨takeWhile_all s, rfl, hbd⟩, ?_⟩
+    · simp only [FNumeral.bytes, List.append_assoc]
+      rw [← hbs, ← hs1, List.takeWhile_append_dropWhile]
+    · simp only [FNumeral.bytes, List.length_append]; omega
+
+theorem faccepts_iff_scan (tr : Bool) (s : List UInt8) (neg : Bool) (sub : Subject) :
+    FAccepts tr s neg sub ↔ ∃ e, scanF s = some (neg, sub, e) ∧ (tr = true ∨ e = s.length) := by
+  constructor
+  · intro h
+    unfold FAccepts at h
+    cases tr with
+    | true =>
+      simp only [if_true] at h
+      obtain ⟨rest, n, hs, hden, hmax⟩ := h
+      obtain ⟨neg2, sub2, e, hr, hle, heq⟩ := scanF_of_numeral n neg sub rest hden
+      rw [← hs] at hr
+      obtain ⟨n2, rest2, hs2, hden2, hend⟩ := scanF_sound s neg2 sub2 e hr
+      have := hmax n2 _ _ rest2 hs2 hden2
+      obtain ⟨rfl, rfl⟩ := heq (by omega)
+      exact ⟨e, hr, Or.inl rfl⟩
+    | false =>
+      simp only [Bool.false_eq_true, if_false] at h
+      obtain ⟨n, hs, hden⟩ := h
+      obtain ⟨neg2, sub2, e, hr, hle, heq⟩ := scanF_of_numeral n neg sub [] hden
+      rw [List.append_nil, ← hs] at hr
+      obtain ⟨n2, rest2, hs2, hden2, hend⟩ := scanF_sound s neg2 sub2 e hr
+      have hl : s.length = n2.bytes.length + rest2.length := by rw [hs2]; simp
+      have hl2 : s.length = n.bytes.length := by rw [hs]
+      obtain ⟨rfl, rfl⟩ := heq (by omega)
+      exact ⟨e, hr, Or.inr (by omega)⟩
+  · rintro ⟨e, hr, htr⟩
+    obtain ⟨n, rest, hs, hden, hend⟩ := scanF_sound s neg sub e hr
+    unfold FAccepts
+    cases tr with
+    | true =>
+      simp only [if_true]
+      refine ⟨rest, n, hs, hden, ?_⟩
+      intro n' neg' sub' rest' hs' hden'
+      obtain ⟨neg2, sub2, e', hr', hle, _⟩ := scanF_of_numeral n' neg' sub' rest' hden'
+      rw [← hs', hr] at hr'
+      injection hr' with hr'
+      simp only [Prod.mk.injEq] at hr'
+      omega
+    | false =>
+      simp only [Bool.false_eq_true, if_false]
+      rcases htr with h | h
+      · simp at h
+      · have hl : s.length = n.bytes.length + rest.length := by rw [hs]; simp
+        have : rest = [] := List.eq_nil_of_length_eq_zero (by omega)
+        subst this
+        exact ⟨n, by simpa using hs, hden⟩
+
+theorem scanF_endOff_pos {s : List UInt8} {neg : Bool} {sub : Subject} {e : Nat}
+    (h : scanF s = some (neg, sub, e)) : 0 < e := by
+  obtain ⟨n, rest, _, hden, hend⟩ := scanF_sound s neg sub e h
+  obtain ⟨c, t, hct, _⟩ := body_head hden.2.2
+  simp only [FNumeral.bytes, List.length_append, hct, List.length_cons] at hend
+  omega
+
+
 end Percival.Proofs.FloatNumeral
